@@ -11,6 +11,13 @@ from .mir import AnchorMissing, Program
 
 VERIF = factsmod.VERIF
 KF_PATH = os.path.join(VERIF, "known_findings.json")
+# runs against a scratch copy (self-test, seeded mutants) must not overwrite the committed evidence
+if os.environ.get("NSV_EVIDENCE_DIR"):
+    EVID = os.environ["NSV_EVIDENCE_DIR"]
+elif factsmod.REPO != "/repo":
+    EVID = os.path.join("/tmp", "nsv-evidence-%d" % os.getuid(), factsmod.REPO.strip("/").replace("/", "_"))
+else:
+    EVID = os.path.join(VERIF, "evidence")
 
 
 def load_known_findings():
@@ -113,12 +120,12 @@ def run_check(prop, rules, tier, explanation, assumptions, trusted_base, nontriv
             known_hit.append((key, rs))
         else:
             new.append((key, rs))
-    os.makedirs(os.path.join(VERIF, "evidence", "replay"), exist_ok=True)
+    os.makedirs(os.path.join(EVID, "replay"), exist_ok=True)
     for key, rs in known_hit:
         print("KNOWN-FINDING: property=%s %s -- %s" % (prop, key, open_keys[key]["what_fails"]))
     for key, rs in new:
         h = hashlib.sha256(key.encode()).hexdigest()[:12]
-        path = os.path.join(VERIF, "evidence", "replay", "%s-%s.json" % (prop, h))
+        path = os.path.join(EVID, "replay", "%s-%s.json" % (prop, h))
         with open(path, "w") as fh:
             json.dump(dict(property=prop, key=key, reports=rs), fh, indent=1)
         r = rs[0]
@@ -178,7 +185,7 @@ def run_check(prop, rules, tier, explanation, assumptions, trusted_base, nontriv
         wall_s=round(time.time() - t0, 3),
         violations=len(new),
     )
-    with open(os.path.join(VERIF, "evidence", "%s.json" % prop), "w") as fh:
+    with open(os.path.join(EVID, "%s.json" % prop), "w") as fh:
         json.dump(ev, fh, indent=1)
     print("%s tier=%s cfgs=%s obligations=%d discharged=%d known=%d new=%d wall=%.1fs" % (
         prop, tier, ",".join(cfgs), len(records), len(oks), len(known_hit), len(new), time.time() - t0))
